@@ -358,4 +358,5 @@ add("C33", "mean_and_std squares without the modulus", "nifty/re/tree_math/fores
 add("C33", "None axis specification flattened itself", "nifty/re/custom_map.py", "        out_axes = tree_map(lambda el: None, y)\n        out_axes, out_axes_td = tree_flatten(out_axes, is_leaf=_int_or_none)\n    elif isinstance(out_axes, int):", "        out_axes, out_axes_td = tree_flatten(out_axes)\n    if isinstance(out_axes, int):", "R33.8")
 add("C13", "inverse-draw refusal of a sum built but not raised", "nifty/cl/operators/sum_operator.py", "            raise NotImplementedError(\n                \"cannot draw from inverse of this operator\")", "            NotImplementedError(\n                \"cannot draw from inverse of this operator\")", "R13.10")
 add("C16", "L-BFGS history reset only at construction", "nifty/cl/minimization/descent_minimizers.py", "    def __call__(self, energy):\n        self.reset()\n        return super(L_BFGS, self).__call__(energy)\n", "    def __call__(self, energy):\n        return super(L_BFGS, self).__call__(energy)\n", "R16.5")
+add("C13", "per-key device dict leaves the lookup table unbound", "nifty/cl/multi_field.py", "            _device_id = defaultdict(lambda: device_id)\n        else:\n            _device_id = device_id\n", "            _device_id = defaultdict(lambda: device_id)\n", "R13.11")
 VARIANTS = V
